@@ -269,3 +269,31 @@ func sign2(d int64) string {
 	}
 	return itoa(int(d))
 }
+
+// Pack stores coordinates (each below 2^width) as one integer, coordinate 0 lowest.
+func Pack(width uint, coords ...*big.Int) *big.Int {
+	r := new(big.Int)
+	for i := len(coords) - 1; i >= 0; i-- {
+		r.Lsh(r, width)
+		r.Or(r, coords[i])
+	}
+	return r
+}
+
+// Unpack is the inverse of Pack.
+func Unpack(v *big.Int, width uint, n int) []*big.Int {
+	mask := sub(Pow2(width), one)
+	t := new(big.Int).Set(v)
+	out := make([]*big.Int, n)
+	for i := range out {
+		out[i] = new(big.Int).And(t, mask)
+		t.Rsh(t, width)
+	}
+	return out
+}
+
+// HashPairs reports whether a pair sweep of n cases is small enough to register
+// every case with Reporter.Distinct (a hashed set). Larger sweeps are counted by
+// the `ordered_pairs` counter instead; the pairs are distinct by construction
+// because operand lists are de-duplicated by value.
+func HashPairs(n int) bool { return n <= 1500000 }
